@@ -9,6 +9,7 @@ package main
 
 import (
 	"fmt"
+	"os"
 	"strings"
 
 	dbm "github.com/bytom/bytom/database/leveldb"
@@ -148,6 +149,9 @@ func (nc *nodeCase) runCrashPoints(maxPoints int) {
 		bad := false
 		for _, e := range nc.events {
 			r := nc.applyEvent(n, e)
+			if os.Getenv("CRASHDBG") == fmt.Sprintf("%d:%d", len(log), k) {
+				fmt.Fprintln(os.Stderr, "DBG", e.kind, e.name, e.src, e.tgt, r, nc.segs(nc.dump(r), "best", "just", "tree"))
+			}
 			if r == "panic" {
 				c.Fail("C19:redelivery-panics", where+": re-delivering "+e.kind+" "+e.name+e.tgt+" panics")
 				bad = true
